@@ -30,7 +30,7 @@ PairAddrs == {PairDefs[i].addr : i \in DOMAIN PairDefs}
 LpAddrs == {PairDefs[i].lp : i \in DOMAIN PairDefs}
 AllAccts == Users \cup {FAC, RTR, "tA", "tB"} \cup PairAddrs \cup LpAddrs
 
-MCKeyBytes(id) == CASE id = "ua" -> <<2>> [] id = "ub" -> <<3>> [] id = "tA" -> <<4>> [] id = "tB" -> <<5>> [] OTHER -> <<9>>
+MCKeyBytes(x) == LET id == x.id IN CASE id = "ua" -> <<2>> [] id = "ub" -> <<3>> [] id = "tA" -> <<4>> [] id = "tB" -> <<5>> [] OTHER -> <<9>>
 MCAddrOfIndex(n) == "new"
 
 Reserve(p, asset) == IF asset \in {p.a0, p.a1} THEN (IF asset = p.a0 THEN 8 ELSE 6) ELSE 0
